@@ -12,10 +12,11 @@
     <S> = `err <Error>` or `ok[..]` with one `;`-terminated item per element (see `show*` below).
     `sizes:` = `size_of` of the Rust element types in the order of `MemSizes`' fields; absent ⇒
     `MemSizes.default`.
-  engine `roundtrip` (C02): not implemented here yet — answers `bad-op`.
+  engine `roundtrip` (C02): dispatched to `MdModel.Encode.handle`.
 -/
 import MdModel.Prelude
 import MdModel.Dump
+import MdModel.Encode
 namespace MdModel.Bytes
 open MdModel MdModel.Dump
 
@@ -143,6 +144,7 @@ def handle (engine : String) (args : List String) : String :=
     match Proto.unhex hex, parseSizes (sizes.drop 6).toString with
     | some bs, some ms => if ms.bounded then answerRead ms bs.toArray else "bad-op"
     | _, _ => "bad-op"
+  | "roundtrip", args => MdModel.Encode.handle args
   | _, _ => "bad-op"
 
 end MdModel.Bytes
